@@ -391,6 +391,54 @@ int main(int argc, char **argv)
         };
         rec2(0);
     }
+
+    // Format-spec family: the whole grammar [fill][align]width[!] on three placeholders - every fill from a set that includes the three
+    // alignment characters themselves, every alignment, widths around the value lengths, with and without '!'
+    if (vx::argInt(argc, argv, "--spec-family", 0)) {
+        const char *fills[] = { "", "*", "0", " ", "<", ">", "^", "!", "x", "-", "_" };
+        const char *aligns[] = { "", "<", ">", "^" };
+        const char *widths[] = { "1", "2", "5", "8", "12", "05", "007" };
+        const char *phs[] = { "type", "message", "a", "o?1" };
+        for (auto ph : phs) for (auto f : fills) for (auto a : aligns) for (auto w : widths) for (auto b : { "", "!" }) {
+            if (*f && !*a) continue;                       // a fill needs an alignment
+            if ((patNo++ % nshards) != shard) continue;
+            std::string p = std::string("[%{") + ph + ":" + f + a + w + b + "}]";
+            runPattern(p, false); sum.states++; sum.counters["spec_family_patterns"]++;
+        }
+    }
+    // Source-location strings that live in caller-owned buffers which are REUSED for the next message (same addresses, new contents):
+    // one formatter object, consecutive messages, each judged on its own
+    if (vx::argInt(argc, argv, "--reuse-family", 0) && shard == 0) {
+        static char bFile[128], bFunc[256], bCat[64];
+        const char *files[] = { "/base/src/main.cpp", "/base/x.cpp", "y.h" };
+        const char *cats[] = { "net.io", "ui", "default" };
+        const char *pats[] = { "%{function}", "%{func}", "%{file}", "%{shortfile}", "%{shortfile /base}", "%{category}", "%{function}|%{func}|%{file}|%{shortfile}|%{category}", "%{func:>6!}|%{category:<8}|%{shortfile:^9}" };
+        const int NS = (int)(sizeof SIGS / sizeof SIGS[0]);
+        for (auto pat8 : pats) {
+            QString pattern = QString::fromUtf8(pat8);
+            PatternFormatter pf(pattern);
+            U pat = uq(pattern);
+            for (int i = 0; i < NS; i++) for (int j = 0; j < NS; j++) {
+                const int order[3] = { i, j, i };
+                for (int k = 0; k < 3; k++) {
+                    int si = order[k];
+                    snprintf(bFunc, sizeof bFunc, "%s", SIGS[si].raw); snprintf(bFile, sizeof bFile, "%s", files[(si + k) % 3]); snprintf(bCat, sizeof bCat, "%s", cats[(si + 2 * k) % 3]);
+                    QMessageLogContext ctx(bFile, 42, bFunc, bCat);
+                    LogMessage lm(QtDebugMsg, ctx, QStringLiteral("hi"));
+                    Msg m { QtDebugMsg, u"hi", u(bCat), u(bFile), u(SIGS[si].raw), u(SIGS[si].clean), 42, lm.threadId(), lm.time(), {} };
+                    RefResult r = reference(pat, m);
+                    sum.cases++; sum.counters["reused_buffer_cases"]++;
+                    if (r.excluded) { excl[r.why]++; continue; }
+                    U got = uq(pf.format(lm));
+                    sum.transitions++;
+                    if (!matches(got, r))
+                        sum.violate("reused-buffers", std::string("pattern ") + pat8 + ", message " + std::to_string(k + 1) + " of 3 through one formatter, function/file/category handed over in reused buffers (now '" + bFunc + "', '" + bFile + "', '" + bCat + "'): output '" + vx::jesc(qs(got)) +
+                                                          "' but the documented rules give '" + vx::jesc(qs(r.accept.empty() ? U() : r.accept.front())) + "'",
+                                    "{\"pattern\":" + vx::jstr(pattern) + ",\"reused_buffers\":true,\"sigs\":[" + std::to_string(i) + "," + std::to_string(j) + "," + std::to_string(i) + "],\"message\":" + std::to_string(k) + "}");
+                }
+            }
+        }
+    }
     for (auto &kv : excl) sum.counters["excluded: " + kv.first] = kv.second;
     sum.print();
     return 0;
